@@ -95,6 +95,81 @@ fn mutate(alg: &str, target: &str, mut bytes: Vec<u8>, m: &Value) -> Vec<u8> {
     bytes
 }
 
+// ---------------------------------------------------------------------------------------------
+// algebraically degenerate values (scenario mut.target = "craft"): encodings nobody can have produced
+const ED_L: &str = "edd3f55c1a631258d69cf7a2def9de1400000000000000000000000000000010"; // group order, little endian
+const SECP_N: &str = "fffffffffffffffffffffffffffffffebaaedce6af48a03bbfd25e8cd0364141"; // group order, big endian
+fn hexv(s: &str) -> Vec<u8> {
+    hex::decode(s).unwrap()
+}
+fn bls_inf(len: usize) -> Vec<u8> {
+    let mut v = vec![0u8; len];
+    v[0] = 0xc0; // compressed, infinity
+    v
+}
+fn is_craft(m: &Value) -> bool {
+    m["target"].as_str() == Some("craft")
+}
+/// little-endian a + b (32 bytes, carry dropped)
+fn add_le(a: &[u8], b: &[u8]) -> Vec<u8> {
+    let mut carry = 0u16;
+    (0..32).map(|i| { let x = a[i] as u16 + b[i] as u16 + carry; carry = x >> 8; x as u8 }).collect()
+}
+/// big-endian a - b (32 bytes, a >= b)
+fn sub_be(a: &[u8], b: &[u8]) -> Vec<u8> {
+    let mut out = vec![0u8; 32];
+    let mut borrow = 0i16;
+    for i in (0..32).rev() {
+        let mut x = a[i] as i16 - b[i] as i16 - borrow;
+        borrow = if x < 0 { x += 256; 1 } else { 0 };
+        out[i] = x as u8;
+    }
+    out
+}
+fn ed_s(kind: &str, honest_sig: &[u8]) -> Vec<u8> {
+    match kind {
+        "s0" => vec![0u8; 32],
+        "s1" => { let mut v = vec![0u8; 32]; v[0] = 1; v }
+        "sL" => hexv(ED_L),
+        "sHonest" => honest_sig[32..].to_vec(),
+        k => panic!("harness: unknown s kind {}", k),
+    }
+}
+/// (public key, signature) of a crafted Ed25519 scenario
+fn craft_ed(m: &Value, honest_pk: Vec<u8>, honest_sig: Vec<u8>) -> (Vec<u8>, Vec<u8>) {
+    let idx = m["idx"].as_u64().unwrap() as usize;
+    let mask = m["mask"].as_u64().unwrap() as usize;
+    let region = m["region"].as_str().unwrap();
+    match m["kind"].as_str().unwrap() {
+        "ed.torsion" => (crate::txbuild::ed_torsion(idx).to_vec(), [crate::txbuild::ed_torsion(mask).to_vec(), ed_s(region, &honest_sig)].concat()),
+        "ed.torsionR" => (honest_pk, [crate::txbuild::ed_torsion(idx).to_vec(), ed_s(region, &honest_sig)].concat()),
+        "ed.torsionPk" => (crate::txbuild::ed_torsion(idx).to_vec(), honest_sig),
+        "ed.sPlusL" => (honest_pk, [honest_sig[..32].to_vec(), add_le(&honest_sig[32..], &hexv(ED_L))].concat()),
+        k => panic!("harness: unknown craft kind {}", k),
+    }
+}
+/// crafted secp256k1 signature from the honest one ([v | r | s], big endian)
+fn craft_secp(m: &Value, honest: Vec<u8>) -> Vec<u8> {
+    let n = hexv(SECP_N);
+    let zero = vec![0u8; 32];
+    let (r, s) = (honest[1..33].to_vec(), honest[33..65].to_vec());
+    let (r, s) = match m["kind"].as_str().unwrap() {
+        "secp.r0" => (zero.clone(), s),
+        "secp.s0" => (r, zero.clone()),
+        "secp.r0s0" => (zero.clone(), zero.clone()),
+        "secp.rn" => (n.clone(), s),
+        "secp.sn" => (r, n.clone()),
+        "secp.twin" => (r, sub_be(&n, &s)),
+        k => panic!("harness: unknown craft kind {}", k),
+    };
+    let v = match m["idx"].as_u64().unwrap() {
+        4 => honest[0],
+        5 => honest[0] ^ 1,
+        x => x as u8,
+    };
+    [vec![v], r, s].concat()
+}
+
 fn b(x: bool) -> String {
     (if x { "true" } else { "false" }).to_string()
 }
@@ -105,7 +180,10 @@ pub fn outcome(w: &World, s: &Value) -> String {
     let ix = |k: &str| s[k].as_u64().unwrap() as usize - 1;
     match op {
         "secp.verify" | "secp.recover" => {
-            let sig = mutate("secp", "sig", w.secp[ix("k")].sign(&Hash(w.msgs[ix("m")])).to_vec(), m);
+            let mut sig = mutate("secp", "sig", w.secp[ix("k")].sign(&Hash(w.msgs[ix("m")])).to_vec(), m);
+            if is_craft(m) {
+                sig = craft_secp(m, sig);
+            }
             let pk = mutate("secp", "pk", w.secp[ix("vk")].public_key().to_vec(), m);
             let msg = mutate("secp", "msg", w.msgs[ix("vm")].to_vec(), m);
             let sig = match Secp256k1Signature::try_from(sig.as_slice()) {
@@ -132,14 +210,24 @@ pub fn outcome(w: &World, s: &Value) -> String {
             let sig = mutate("ed", "sig", w.ed[ix("k")].sign(&w.msgs[ix("m")]).to_vec(), m);
             let pk = mutate("ed", "pk", w.ed[ix("vk")].public_key().to_vec(), m);
             let msg = mutate("ed", "msg", w.msgs[ix("vm")].to_vec(), m);
+            let (pk, sig) = if is_craft(m) { craft_ed(m, pk, sig) } else { (pk, sig) };
             match (Ed25519Signature::try_from(sig.as_slice()), Ed25519PublicKey::try_from(pk.as_slice())) {
                 (Ok(sig), Ok(pk)) => b(verify_ed25519(&msg, &pk, &sig)),
                 _ => b(false),
             }
         }
         "bls.verify" => {
-            let sig = mutate("bls", "sig", w.bls[ix("k")].sign_v1(&w.msgs[ix("m")]).to_vec(), m);
-            let pk = mutate("bls", "pk", w.bls[ix("vk")].public_key().to_vec(), m);
+            let mut sig = mutate("bls", "sig", w.bls[ix("k")].sign_v1(&w.msgs[ix("m")]).to_vec(), m);
+            let mut pk = mutate("bls", "pk", w.bls[ix("vk")].public_key().to_vec(), m);
+            if is_craft(m) {
+                let kind = m["kind"].as_str().unwrap();
+                if kind == "bls.infPk" || kind == "bls.infBoth" {
+                    pk = bls_inf(48);
+                }
+                if kind == "bls.infSig" || kind == "bls.infBoth" {
+                    sig = bls_inf(96);
+                }
+            }
             let msg = mutate("bls", "msg", w.msgs[ix("vm")].to_vec(), m);
             match (Bls12381G2Signature::try_from(sig.as_slice()), Bls12381G1PublicKey::try_from(pk.as_slice())) {
                 (Ok(sig), Ok(pk)) => b(verify_bls12381_v1(&msg, &pk, &sig)),
@@ -155,7 +243,11 @@ pub fn outcome(w: &World, s: &Value) -> String {
                 .collect();
             let agg = if op == "bls.fast_anemone" { Bls12381G2Signature::aggregate_anemone(&comps) } else { Bls12381G2Signature::aggregate(&comps, true) };
             let agg = agg.expect("harness: honest signatures must aggregate");
-            let sig = mutate("bls", "sig", agg.to_vec(), m);
+            let craft = if is_craft(m) { m["kind"].as_str().unwrap() } else { "" };
+            let mut sig = mutate("bls", "sig", agg.to_vec(), m);
+            if craft == "bls.infSig" || craft == "bls.infAll" {
+                sig = bls_inf(96);
+            }
             let sig = match Bls12381G2Signature::try_from(sig.as_slice()) {
                 Ok(x) => x,
                 Err(_) => return b(false),
@@ -166,6 +258,9 @@ pub fn outcome(w: &World, s: &Value) -> String {
                 let mut pk = w.bls[p["k"].as_u64().unwrap() as usize - 1].public_key().to_vec();
                 if i == 0 {
                     pk = mutate("bls", "pk", pk, m);
+                }
+                if craft == "bls.infAll" || (craft == "bls.infPkAt" && i + 1 == m["idx"].as_u64().unwrap() as usize) {
+                    pk = bls_inf(48);
                 }
                 match Bls12381G1PublicKey::try_from(pk.as_slice()) {
                     Ok(pk) => pks.push(pk),
@@ -208,6 +303,7 @@ fn replay(args: &Args) {
     let mut out = Out::new();
     let cases = read_lines();
     let mut outcomes = std::collections::BTreeMap::<String, u64>::new();
+    let mut craft = std::collections::BTreeMap::<String, u64>::new();
     for (bi, c) in cases.iter().enumerate() {
         let got = match catch(|| outcome(&w, &c["s"])) {
             Ok(g) => g,
@@ -218,10 +314,13 @@ fn replay(args: &Args) {
             Err(_) => "panic".to_string(),
         };
         *outcomes.entry(format!("{}:{}", c["s"]["op"].as_str().unwrap(), got)).or_default() += 1;
+        if is_craft(&c["s"]["mut"]) {
+            *craft.entry(format!("{}:{}:{}", c["s"]["op"].as_str().unwrap(), c["s"]["mut"]["kind"].as_str().unwrap(), got)).or_default() += 1;
+        }
         if !c["allowed"].as_array().unwrap().iter().any(|a| a.as_str() == Some(got.as_str())) {
             out.mismatch(bi, 0, "outcome", c["allowed"].clone(), json!(got));
         }
     }
-    out.emit(&json!({"outcomes": outcomes}));
+    out.emit(&json!({"outcomes": outcomes, "craft_outcomes": craft}));
     out.done(cases.len(), cases.len());
 }
